@@ -418,7 +418,8 @@ func execDRaw(f []string) string {
 	runD(prog, d, tr)
 	n, err := d.Done()
 	if err != nil {
-		return fmt.Sprintf("err %d %d", n, tr.iters)
+		// the offset Done() reports next to an error is discarded by every caller and is not compared
+		return fmt.Sprintf("err %d", tr.iters)
 	}
 
 	return fmt.Sprintf("ok %d %d %s", n, tr.iters, sx.ShowVals(tr.vals))
